@@ -66,6 +66,8 @@ type Resp struct {
 	Blocked    bool     // TERMINATE was set when the request arrived
 	Ends       string   // "" | graceful | abnormal
 	Croaked    bool     // a CROAK was taken during this request
+	OutAlt     string   // graceful end: the page without the last loaded value (documentation: value shown "instead" of a missing template)
+	HaveAlt    bool
 }
 
 func NewVM(a *app.App, persisted bool) *VM {
@@ -300,6 +302,8 @@ func (v *VM) Request(input []byte) (r Resp) {
 		// graceful end: the final output is the page followed by the last loaded value
 		r.Ends = "graceful"
 		if r.OutKnown && !r.FlushErr {
+			r.OutAlt = r.Out
+			r.HaveAlt = r.Out != ""
 			r.Out += v.Last
 			if v.OutputSize > 0 && len(r.Out) > int(v.OutputSize) {
 				r.Out = ""
